@@ -117,6 +117,9 @@ type ref struct {
 	// zero lists the node masks of the simple cycles of weight exactly zero.
 	zero []uint8
 
+	// risk caches cutRisk (0 unknown, 1 no, 2 yes) per (s, t, direction).
+	risk [maxN][maxN][2]int8
+
 	// negative edges.
 	anyNegEdge   bool
 	negEdgeReach [maxN]bool // an edge (a,b) with w<0 and s ->* a exists
